@@ -11,7 +11,7 @@ from __future__ import annotations
 import asyncio
 import math
 from collections import deque
-from datetime import datetime, timedelta
+from datetime import datetime, timedelta, timezone
 from typing import Any
 
 from sim.env import Sim
@@ -29,7 +29,8 @@ RULE = ("one run = one Resampler with drawn period (0.1-2 s), max_data_age_in_pe
 QUICK_RUNS = 4000
 THOROUGH_RUNS = 250_000
 EXPECT_PROBES = ["equal_timestamps", "stamp_exactly_T", "stamp_exactly_lower_edge", "future_stamp", "none_or_nan_sample", "buffer_resized",
-                 "buffer_limited_window", "empty_window", "silence_longer_than_max_age", "upsampling_period_known"]
+                 "buffer_limited_window", "empty_window", "silence_longer_than_max_age", "upsampling_period_known",
+                 "samples_stamped_in_other_utc_offset", "period_of_a_day_or_more"]
 
 
 def _us(td: timedelta) -> int:
@@ -42,7 +43,11 @@ def scenario(sim: Sim) -> None:
     from frequenz.sdk.timeseries._resampling import Resampler, ResamplerConfig
 
     ch = sim.ch
-    period_us = ch.choice("period", [1_000_000, 500_000, 2_000_000, 100_000, 300_000])
+    period_us = ch.choice("period", [1_000_000, 500_000, 2_000_000, 100_000, 300_000, 1_000_000, 500_000, 2_000_000, 100_000,
+                                     300_000, 86_400_000_000, 90_000_000_000])      # ... and, rarely, one day / 25 hours
+    gscale = period_us // 1_000_000 if period_us > 2_000_000 else 1
+    if gscale > 1:
+        sim.probe("period_of_a_day_or_more")
     period_s = period_us / 1e6
     max_age = ch.choice("max_age", [1.0, 1.5, 2.0, 3.0])
     warn_len = ch.choice("warn_len", [4, 8, 128])
@@ -57,6 +62,7 @@ def scenario(sim: Sim) -> None:
     sim.config.update(period_us=period_us, max_age=max_age, init_len=init_len, warn_len=warn_len, max_len=max_len,
                       nsrc=nsrc, ticks=ticks)
     sim.note(f"period={period_us}us max_age={max_age} buffers init/warn/max={init_len}/{warn_len}/{max_len} sources={nsrc}")
+    sim.loop.max_now_us = max(sim.loop.max_now_us, 3 * (ticks + 12) * period_us)
     max_age_us = round(max_age * period_us)
 
     class Src:
@@ -165,6 +171,11 @@ def scenario(sim: Sim) -> None:
             last_ts = sim.wall() - timedelta(seconds=10)
             gaps = ch.choice("gap_profile", [[50_000, 200_000], [100_000, 900_000], [700_000, 2_500_000],
                                              [2_000_000, 5_000_000], [10_000, 60_000]])
+            gaps = [gaps[0] * gscale, gaps[1] * gscale]
+            # the device stamps its samples in its own UTC offset (same instants, other tzinfo)
+            src_tz = [None, None, timezone(timedelta(hours=2)), timezone(-timedelta(hours=5))][ch.draw("source_utc_offset", 4)]
+            if src_tz is not None:
+                sim.probe("samples_stamped_in_other_utc_offset")
             while sim.now_us < end_us:
                 n += 1
                 sid = src.idx * 1_000_000 + (900_000 - n if descending else n)
@@ -182,6 +193,8 @@ def scenario(sim: Sim) -> None:
                     nxt_tick = now + timedelta(microseconds=(period_us - since % period_us) % period_us)
                     ts = nxt_tick if mode == 3 else nxt_tick + timedelta(microseconds=period_us) - timedelta(microseconds=max_age_us)
                 ts = max(ts, last_ts)
+                if src_tz is not None:
+                    ts = ts.astimezone(src_tz)
                 if ts == last_ts:
                     sim.probe("equal_timestamps")
                 if ts > now:
